@@ -29,12 +29,13 @@ RULE = ("a case is one request history on one parsed library (every class of eve
 TRUSTED = ["canonical form of a flat model = Node.to_json of the returned tree (all symbols with attributes, equations, "
            "functions), of a CasADi model = names/attributes of its variable lists and the printed MX residuals",
            "the write footprint of tree.flatten is observed (snapshot diff per request), not proved"]
-ASSUMPTIONS = ["an outcome RecursionError on one side only is not compared (the depth at which CPython's recursion limit is hit depends on the caller's stack); counted as recursion-limit-not-compared",
+ASSUMPTIONS = ["the reference for every request is computed in a forked child of a process that only imported pymoca (fresh parse of "
+               "the same text, unpickled from the bytes a sibling child produced); forked children share no state with the process "
+               "under test",
+               "an outcome RecursionError on one side only is not compared (the depth at which CPython's recursion limit is hit depends on the caller's stack); counted as recursion-limit-not-compared",
                "the lookup cache that _find_class keeps for unqualified imports (Class.imports[name] = ComponentRef) is not part "
                "of the observed state of the parsed tree",
-               "fresh parse = pymoca.parser.parse(text, bypass_cache=True) of the same source text; after the first request of a "
-               "history the fresh tree is an unpickled copy of that parse result pickled before any use (what the parse cache "
-               "serves); the first request is answered from both and the two must agree"]
+               "fresh parse = pymoca.parser.parse(text, bypass_cache=True) of the same source text"]
 
 OPS = ("flatten", "casadi", "sympy", "xml")
 _log_ready = False
@@ -225,10 +226,10 @@ def check_history(ctx, case, drv):
         ctx.count("source-does-not-parse")
         return
     t = t[1]
-    # fresh trees: unpickled from the parse result, pickled before anything used it (pickle does not go
-    # through the __deepcopy__ hooks); the first request of a case is also answered from a real second parse
-    import pickle
-    blob = pickle.dumps(t, protocol=pickle.HIGHEST_PROTOCOL)
+    # the reference side ("the same request on a fresh parse") is computed in a process that has executed no request
+    # at all (harness/gen/a04_worker.py): nothing earlier requests leave behind -- in the tree or anywhere else in the
+    # process -- can leak into it
+    from harness.gen import a04_worker
     fresh = {}
     probes = set(case.get("probes", []))
     if drv is not None:
@@ -237,14 +238,7 @@ def check_history(ctx, case, drv):
     for i, (op, path) in enumerate(requests):
         key = (op, tuple(path))
         if key not in fresh:
-            fresh[key] = do_request(pickle.loads(blob), op, path)
-            if i == 0 and (case.get("stream") != "models" or ctx.tier != "quick"):
-                ft = a04.outcome(lambda: parse(text))
-                if ft[0] != "ok" or ft[1] is None:
-                    raise HarnessError("source parsed once but not twice")
-                again = do_request(ft[1], op, path)
-                if again != fresh[key]:
-                    raise HarnessError("unpickled parse result and second parse give different results for %s %s" % (op, path))
+            fresh[key] = tuple(a04_worker.fresh().ask({"k": "c05", "text": text, "op": op, "path": list(path)}))
         exp = fresh[key]
         if op == "flatten" and i in probes:
             got = flatten_with_footprint(ctx, drv, t, path, {k: case[k] for k in ("stream", "text")})
@@ -291,34 +285,38 @@ def cli_run(ctx, text, models, target, tag, files=None):
         otm = capi.transfer_model
 
         def tm(model_folder, model_name, compiler_options=None):
-            r = a04.outcome(lambda: otm(model_folder, model_name, compiler_options))
-            obs.append([model_name, "ok", a04.casadi_canon(r[1])] if r[0] == "ok" else [model_name, "exc", r[1]])
-            if r[0] != "ok":
-                raise Exception("transfer_model failed")   # what main() catches: any Exception
-            return r[1]
+            try:
+                m = otm(model_folder, model_name, compiler_options)
+            except BaseException as e:  # noqa: B902 — recorded and passed on unchanged: main() decides what it catches
+                obs.append([model_name, "exc", type(e).__name__])
+                raise
+            obs.append([model_name, "ok", a04.casadi_canon(m)])
+            return m
         capi.transfer_model = tm
 
     def fc(lib, cls):
-        r = a04.outcome(lambda: of(lib, cls))
-        obs.append([cls, "ok", a04.flat_canon(r[1])] if r[0] == "ok" else [cls, "exc", r[1]])
-        if r[0] != "ok":
-            raise Exception("flatten failed")   # what main() catches: any Exception
-        return r[1]
+        try:
+            f = of(lib, cls)
+        except BaseException as e:  # noqa: B902 — recorded and passed on unchanged
+            obs.append([cls, "exc", type(e).__name__])
+            raise
+        obs.append([cls, "ok", a04.flat_canon(f)])
+        return f
 
     def tr(lib, model, translator, options, outdir=None):
-        state = {}
-
-        def call():
-            state["ret"] = ot(lib, model, translator, options, outdir)
-        r = a04.outcome(call)
         out = os.path.join(str(outdir), model + ".py")
+        try:
+            ret = ot(lib, model, translator, options, outdir)
+        except BaseException as e:  # noqa: B902 — recorded and passed on unchanged
+            obs.append([model, type(e).__name__, None, None])
+            if os.path.exists(out):
+                os.remove(out)
+            raise
         content = open(out).read() if os.path.exists(out) else None
-        obs.append([model, r[0] if r[0] == "ok" else r[1], state.get("ret"), content])
+        obs.append([model, "ok", ret, content])
         if os.path.exists(out):
             os.remove(out)
-        if r[0] != "ok":
-            raise _Propagated(r[1])
-        return state["ret"]
+        return ret
     comp.flatten_class, comp.translate = fc, tr
     comp.log.propagate = False
     if not comp.log.handlers:
@@ -327,8 +325,6 @@ def cli_run(ctx, text, models, target, tag, files=None):
     try:
         try:
             rc = ["rc", comp.main(args)]
-        except _Propagated as e:
-            rc = ["raised", e.name]
         except SystemExit as e:
             rc = ["exit", str(e.code)]
         except Exception as e:
@@ -349,29 +345,34 @@ class _Propagated(Exception):
 def check_cli(ctx, case):
     quiet_logs()
     text, models, target, files = case["text"], case["models"], case.get("target"), case.get("files")
+    from harness.gen import a04_worker
     single = {}
     for m in models:
         if m not in single:
-            single[m] = cli_run(ctx, text, [m], target, "s%d" % len(single), files)
-    multi_rc, multi_obs = cli_run(ctx, text, models, target, "m", files)
+            # the model alone: in a clean process
+            r = a04_worker.fresh().ask({"k": "cli", "text": text, "files": files, "models": [m], "target": target,
+                                        "scratch": ctx.scratch, "tag": "s%d-%d" % (ctx.evaluations, len(single))})
+            single[m] = (list(r[0]), [list(o) for o in r[1]])
+    multi_rc, multi_obs = cli_run(ctx, text, models, target, "m%d" % ctx.evaluations, files)
     ctx.count("cli-%s" % (target or "flatten-only"))
-    # expected: the single runs one after the other, stopping at the first one that does not return
+    # expected: every model gets the outcome it gets alone, whatever happened to the models before it
     exp_obs, exp_rc, total = [], None, 0
     for m in models:
         rc, obs = single[m]
         exp_obs += obs
         if rc[0] != "rc":
-            exp_rc = rc
-            break
-        total += rc[1]
+            exp_rc = "unknown"
+        else:
+            total += rc[1]
     if exp_rc is None:
         exp_rc = ["rc", total]
+    ctx.count("cli-models-failing-alone", sum(1 for m in models if single[m][0] != ["rc", 0]))
     if multi_obs != exp_obs:
         k = next((i for i in range(min(len(multi_obs), len(exp_obs))) if multi_obs[i] != exp_obs[i]),
                  min(len(multi_obs), len(exp_obs)))
         ctx.violation("compiler CLI gives a model a different outcome when requested together with other models than alone",
                       dict(case, differs_at=k), expected=_cut(exp_obs[k:k + 1]), observed=_cut(multi_obs[k:k + 1]), kind="history")
-    elif multi_rc != exp_rc:
+    elif exp_rc != "unknown" and multi_rc != exp_rc:
         ctx.violation("compiler CLI exit status for several -m differs from the single runs",
                       case, expected=exp_rc, observed=multi_rc, kind="history")
 
@@ -387,10 +388,10 @@ def uses(lib, gen):
     return a04.class_paths(lib)
 
 
-def gen_case(ctx, rng, nreq, stream="gen"):
+def gen_case(ctx, rng, nreq, stream="gen", failing_heavy=False):
     # a quarter of the libraries refer to input/output symbols of other classes by class path (finding C05-F1, fixed)
     xref = rng.random() < 0.25
-    lib, g = a04.gen_library(rng, xref_io=xref)
+    lib, g = a04.gen_library(rng, xref_io=xref, p_broken=1.0 if failing_heavy else 0.4)
     text = a04.render(lib)
     paths = [list(p) for p in a04.class_paths(lib)]
     tops = [p for p in paths if len(p) == 1 and p[0].startswith(("M", "R"))]
@@ -420,6 +421,17 @@ def gen_case(ctx, rng, nreq, stream="gen"):
                 p = rng.choice(ub)
         op = "flatten" if r < (0.8 if quick else 0.7) else "casadi" if r < 0.9 else "sympy" if r < 0.96 else "xml"
         reqs.append([op, p])
+    if g.clashes:
+        # a model whose variable has the name of another model: both through the same backend, the namesake first
+        m, earlier = rng.choice(g.clashes)
+        op = rng.choice(["sympy", "sympy", "casadi", "xml"])
+        k = rng.randrange(len(reqs) + 1)
+        reqs[k:k] = [[op, [earlier]], [op, [m]]]
+    if failing_heavy and g.broken:
+        # many requests that fail (for different reasons, at different depths), then requests that must still succeed
+        bad = [[rng.choice(["flatten", "flatten", "flatten", "casadi", "xml", "sympy"]), [rng.choice(g.broken)]]
+               for _ in range(70)]
+        reqs = reqs[:4] + bad + reqs[4:]
     fl = [i for i, q in enumerate(reqs) if q[0] == "flatten"]
     probes = sorted(rng.sample(fl, min(len(fl), 2)))
     fc = [rng.choice(paths) for _ in range(2)]
@@ -471,7 +483,7 @@ def models_cases(ctx):
 
 def gen_cli_case(ctx, rng, target=None):
     """every target of the CLI (flatten only, -t sympy, -t casadi) with several -m; one file per top-level class"""
-    lib, g = a04.gen_library(rng)
+    lib, g = a04.gen_library(rng, p_broken=1.0)
     text = a04.render(lib)
     files = {c["name"] + ".mo": a04.render_cls(c) for c in lib["classes"]}
     if target == "casadi":
@@ -484,6 +496,13 @@ def gen_cli_case(ctx, rng, target=None):
     if rng.random() < 0.6:
         # a model that fails (not in the library) somewhere before the end: the later ones must not notice
         models.insert(rng.randrange(len(models)), "NoSuchModel")
+    for b in g.broken:
+        # classes whose flattening raises (ModificationTargetNotFound, ClassNotFoundError, plain Exception, ...)
+        if rng.random() < 0.85:
+            models.insert(rng.randrange(len(models)), b)
+    if g.clashes and target != "casadi":
+        m, earlier = rng.choice(g.clashes)
+        models = [earlier] + models + [m]
     return dict(stream="cli", text=text, files=files, models=models, target=target)
 
 
@@ -507,6 +526,10 @@ def run(ctx):
         run_case(ctx, c, drv)
     import time as _t
     t0 = _t.time()
+    # first: a long history dominated by requests that fail (self-contained, so that its replay shows on its own what
+    # failing requests leave behind in the process)
+    ctx.count("stream-gen-failing-heavy")
+    run_case(ctx, gen_case(ctx, ctx.rng, 12, failing_heavy=True), drv)
     for case in models_cases(ctx):
         if ctx.time_left() < 0:
             ctx.notes.append("test/models stream stopped by time budget")
@@ -525,7 +548,10 @@ def run(ctx):
             ctx.notes.append("generated-library stream stopped by time budget after %d libraries" % i)
             break
         ctx.count("stream-gen")
-        run_case(ctx, gen_case(ctx, ctx.rng, nreq), drv)
+        heavy = (not quick) and i % 25 == 24
+        if heavy:
+            ctx.count("stream-gen-failing-heavy")
+        run_case(ctx, gen_case(ctx, ctx.rng, nreq, failing_heavy=heavy), drv)
     ctx.extra["run_s"] = round(_t.time() - t0, 1)
 
 
@@ -546,6 +572,8 @@ def search(ctx):
 
 
 def translate(ctx):
+    from harness.gen import a04_worker
+    a04_worker.fresh()          # the reference interpreter starts importing now
     a04.translate_flags(ctx)
 
 
